@@ -539,6 +539,7 @@ type Frame struct {
 	vals   map[ssa.Value]Value
 	loops  *loopInfo
 	defers []*ssa.Defer
+	deferGuard map[*ssa.Defer]*Term
 }
 
 type retPoint struct {
